@@ -92,10 +92,10 @@ def days_of_civil(y, m, d):
 def civil_of_days(z):
     """search by the monotone day count (no era arithmetic)"""
     y = 1970 + z // 366
+    while days_before_year(y) > z:
+        y -= 1 + (days_before_year(y) - z) // 366
     while days_before_year(y + 1) <= z:
         y += 1 + (z - days_before_year(y + 1)) // 366
-    while days_before_year(y) > z:
-        y -= 1
     r = z - days_before_year(y)
     m = 1
     while r >= dim(y, m):
